@@ -309,3 +309,129 @@ Proof. vm_compute. reflexivity. Qed.
 Example var_digit_not_canonical :
   parse_term 5 (show_term (TVar 0 (s2l "$1"))) = Ok (POk (TAtom (s2l "$1"))).
 Proof. vm_compute. reflexivity. Qed.
+
+(* ---- wider atoms: identifier characters and inner blanks ----
+   `[A-Za-z0-9_]` at both ends, identifier characters and blanks between, not all digits (a text
+   of digits only is a number).  Capitalised atoms (`Abc`, `Nil`), atoms that start with a digit
+   or `_` (`1a`, `_x`) and atoms of several words (`New York`) are of this kind. *)
+Definition achar (c : N) : bool := ident_char c || (c =? 32).
+
+Definition wide_atom (s : str) : bool :=
+  match s with
+  | c :: r => ident_char c && forallb achar r && ident_char (last s 0) && negb (forallb is_digit s)
+  | [] => false
+  end.
+
+Lemma wide_atom_facts s : wide_atom s = true ->
+  s <> [] /\ ident_char (hd 0 s) = true /\ Forall (fun c => achar c = true) s /\
+  ident_char (last s 0) = true /\ forallb is_digit s = false.
+Proof.
+  destruct s as [|c r]; [discriminate|]. cbn [wide_atom]. intros H.
+  apply andb_true_iff in H as [H Hd]. apply andb_true_iff in H as [H Hl].
+  apply andb_true_iff in H as [Hc Hr]. apply negb_true_iff in Hd. apply forallb_Forall in Hr.
+  split; [discriminate|]. split; [exact Hc|]. split; [|split; assumption].
+  constructor; [|exact Hr]. unfold achar. now rewrite Hc.
+Qed.
+
+Lemma simple_atom_wide s : simple_atom s = true -> wide_atom s = true.
+Proof.
+  intros Hs. pose proof (simple_atom_word s Hs) as Hw.
+  destruct s as [|c r]; [discriminate|]. cbn [simple_atom] in Hs.
+  apply andb_true_iff in Hs as [Hc Hr]. cbn [wide_atom].
+  assert (Hall : Forall (fun c => ident_char c = true) (c :: r)).
+  { constructor; [now apply lower_ident|now apply forallb_Forall]. }
+  rewrite (lower_ident c Hc).
+  assert (Hr' : forallb achar r = true).
+  { apply forallb_forall. intros x Hx. rewrite forallb_forall in Hr. unfold achar. now rewrite (Hr x Hx). }
+  rewrite Hr'.
+  pose proof (Forall_last _ (c :: r) 0 ltac:(discriminate) Hall) as Hl. cbv beta in Hl. rewrite Hl.
+  cbn [forallb andb negb].
+  assert (Ed : is_digit c = false).
+  { apply in_range_spec in Hc. unfold is_digit. destruct (in_range 48 57 c) eqn:E; [|reflexivity].
+    apply in_range_spec in E. lia. }
+  now rewrite Ed.
+Qed.
+
+Lemma achar_range c : achar c = true ->
+  c = 32 \/ 48 <= c <= 57 \/ 65 <= c <= 90 \/ c = 95 \/ 97 <= c <= 122.
+Proof.
+  unfold achar. intros H. apply orb_true_iff in H as [H|H].
+  - apply ident_char_range in H. lia.
+  - apply N.eqb_eq in H. lia.
+Qed.
+
+Lemma cs_achars s : Forall (fun c => achar c = true) s -> forall p, (p =? c_minus) = false -> cs p s = true.
+Proof.
+  induction s as [|c tl IH]; intros H p Hp; [reflexivity|].
+  inversion H as [|x l Hc Htl]; subst. cbn [cs]. apply achar_range in Hc.
+  assert (E1 : (c =? c_plus) = false) by char_neq.
+  assert (E2 : (c =? c_star) = false) by char_neq.
+  assert (E3 : (c =? c_slash) = false) by char_neq.
+  assert (E4 : (c =? c_minus) = false) by char_neq.
+  rewrite E1, E2, E3, Hp. cbn [negb andb]. now apply IH.
+Qed.
+
+Lemma cs_wide s : wide_atom s = true -> forall p, cs p s = true.
+Proof.
+  intros H p. destruct (wide_atom_facts s H) as (Hne & Hh & Hall & _).
+  destruct s as [|c r]; [now elim Hne|]. cbn [hd] in Hh. inversion Hall as [|x l _ Hr]; subst.
+  cbn [cs]. apply ident_char_range in Hh.
+  assert (E1 : (c =? c_plus) = false) by char_neq.
+  assert (E2 : (c =? c_star) = false) by char_neq.
+  assert (E3 : (c =? c_slash) = false) by char_neq.
+  assert (E4 : (c =? 32) = false) by char_neq.
+  assert (E5 : (c =? c_minus) = false) by char_neq.
+  rewrite E1, E2, E3, E4. rewrite andb_false_r. cbn [negb andb]. now apply cs_achars.
+Qed.
+
+Lemma wide_atom_trimmed s : wide_atom s = true -> trim s = s.
+Proof.
+  intros H. destruct (wide_atom_facts s H) as (_ & Hh & _ & Hl & _).
+  apply trimmed_trim. right. split; apply wchar_not_white; now apply ident_wchar.
+Qed.
+
+Lemma classify_loop_nondigit s : Forall (fun c => achar c = true) s -> forall i hd hnd hp,
+  hnd = true \/ forallb is_digit s = false ->
+  exists hd' hp', classify_loop s i hd hnd hp = (hd', true, hp').
+Proof.
+  induction s as [|c r IH]; intros H i hd hnd hp Hor.
+  - destruct Hor as [->|Hor]; [cbn; eauto|discriminate].
+  - inversion H as [|x l Hc Hr]; subst. cbn [classify_loop]. cbn [forallb] in Hor.
+    destruct (is_digit c) eqn:Ed.
+    + apply IH; [exact Hr|]. destruct Hor as [Hor|Hor]; [now left|now right].
+    + apply achar_range in Hc.
+      assert (Hnd : ~ 48 <= c <= 57).
+      { intros Hd. unfold is_digit in Ed. destruct (in_range 48 57 c) eqn:E; [discriminate|].
+        assert (E' : in_range 48 57 c = true) by (now apply in_range_spec). congruence. }
+      assert (E1 : (c =? c_period) = false) by char_neq.
+      assert (E2 : (c =? c_plus) = false) by char_neq.
+      assert (E3 : (c =? c_minus) = false) by char_neq.
+      rewrite E1, E2, E3. cbn [orb]. rewrite andb_false_r. apply classify_loop_hnd.
+Qed.
+
+Theorem parse_term_show_wide_atom : forall fuel s,
+  wide_atom s = true -> parse_term (S fuel) (show_term (TAtom s)) = Ok (POk (TAtom s)).
+Proof.
+  intros fuel s Hs. cbn [show_term].
+  destruct (wide_atom_facts s Hs) as (Hne & Hh & Hall & Hl & Hd).
+  pose proof (wide_atom_trimmed s Hs) as Ht.
+  cbn [parse_term]. rewrite parse_term_body_plain.
+  2:{ apply no_arith_infix_cs; [exact Ht|now apply cs_wide]. }
+  2:{ intros tl E. rewrite Ht in E. rewrite E in Hh. discriminate Hh. }
+  unfold make_term. rewrite !trim_idem, Ht.
+  destruct (classify_loop_nondigit s Hall 0%nat false false false (or_intror Hd)) as (hd' & hp' & Hcl).
+  unfold classify_term. rewrite Hcl.
+  destruct s as [|c r] eqn:Es; [now elim Hne|]. rewrite <- Es in Hl |- *. cbn [hd] in Hh.
+  apply ident_char_range in Hh. apply ident_char_range in Hl.
+  assert (E1 : (c =? c_dollar) = false) by char_neq.
+  assert (E2 : (c =? c_dquote) = false) by char_neq.
+  assert (E3 : (c =? c_lbr) = false) by char_neq.
+  assert (E4 : (last s 0 =? c_rpar) = false) by char_neq.
+  rewrite E1, E2, E3, E4. cbn [negb andb]. rewrite !andb_false_r.
+  destruct (2 <=? length s)%nat; reflexivity.
+Qed.
+
+(* a text of digits only is a number, not an atom *)
+Example digits_atom_not_read_back :
+  parse_term 5 (show_term (TAtom (s2l "123"))) = Ok (POk (TInt 123)).
+Proof. vm_compute. reflexivity. Qed.
